@@ -265,7 +265,7 @@ func init() {
 			}
 			if json.Unmarshal(ctx.Replay, &cs8) == nil && cs8.S {
 				ctx.Case(cs8, "", "root-close-during-stalled-delivery", "")
-				for k := 0; k < 10; k++ {
+				for k := 0; k < 40; k++ {
 					if f := c08InFlight(cs8.Cached, false, cs8.Which); f != "" {
 						ctx.Fail("deliveries_add_up_to_increments", f, cs8, nil)
 						return
@@ -401,10 +401,13 @@ func init() {
 		}
 		// root Close while a periodic pass is stalled inside a delivery (real ticker, default shard
 		// count), every counter incremented in between: the sums must add up when Close returns (stream of C08)
-		for k := 0; k < 12; k++ {
-			cs := map[string]interface{}{"close_during_stalled_delivery": true, "cached": k%2 == 1, "stalled_scope": k / 2 % 3}
+		for k := 0; k < 40; k++ {
+			// mostly a subscope's delivery: whether it sits alone in its shard and is visited before
+			// the root there is up to the hash seed and the map order of the run
+			which := []int{0, 1, 2, 1, 2}[k/2%5]
+			cs := map[string]interface{}{"close_during_stalled_delivery": true, "cached": k%2 == 1, "stalled_scope": which}
 			ctx.Case(cs, "", "root-close-during-stalled-delivery", "")
-			if f := c08InFlight(k%2 == 1, false, k/2%3); f != "" {
+			if f := c08InFlight(k%2 == 1, false, which); f != "" {
 				ctx.Fail("deliveries_add_up_to_increments", f, cs, nil)
 				break
 			}
